@@ -25,9 +25,9 @@ for _f in sorted(glob.glob(os.path.join(os.path.dirname(os.path.abspath(__file__
 # semantics / the pipeline model says something about the Go code only through "model = regenerated source" bridges of the
 # stages the property runs through; when such a bridge no longer checks, the property is no longer shown to hold for the code
 # (the check then searches for a failing input and otherwise reports `no-failing-input-found`, naming the bridge lemma).
-RUN_TIE = ["Bridge/BrSchemes.vo", "Bridge/BrSchemesItems.vo", "Bridge/BrVMSteps.vo", "Bridge/BrRuntime.vo", "Bridge/BrC14.vo"]   # compiler schemes, dispatch loop, run-time helpers, helper tables
+RUN_TIE = ["Bridge/BrSchemes.vo", "Bridge/BrSchemesItems.vo", "Bridge/BrSchemesMatches.vo", "Bridge/BrAssemble.vo", "Bridge/BrVMSteps.vo", "Bridge/BrRuntime.vo", "Bridge/BrRuntimeEq.vo", "Bridge/BrC14.vo"]   # compiler schemes, dispatch loop, run-time helpers, helper tables
 FRONT_TIE = ["Bridge/BrLexer.vo", "Bridge/BrParser.vo"]
-CHECK_TIE = ["Bridge/BrChecker.vo", "Bridge/BrTables.vo"]
+CHECK_TIE = ["Bridge/BrChecker.vo", "Bridge/BrMembersChecker.vo", "Bridge/BrTables.vo"]
 OPT_TIE = ["Bridge/BrOpt.vo"]
 PIPE_TIE = ["Bridge/BrC04.vo"]        # stage order of expr.Compile / Eval / Run, recover table
 WALK_TIE = ["Bridge/BrC10.vo"]
